@@ -12,10 +12,10 @@ SHARD = 150
 HDR = core.CASE_HDR + (
     "From Bandit Require Import Gen.Constants Gen.Blacklists Gen.Registry Gen.Regexes %s.\n"
     "Definition fname : pstr := %s.\n"
-    "Record scase := SCase { s_mod : node; s_nosec : nosec_map; s_sel : list pstr; s_cfg : list (pstr * jv) }.\n"
+    "Record scase := SCase { s_mod : node; s_nosec : nosec_map; s_sel : list pstr; s_cfg : list (pstr * jv); s_lines : option (list pstr) }.\n"
     "Definition run1 (x : scase) : scan_out :=\n"
     "  scan consts_gen (build_tests registry %s defaults (s_cfg x) (fun i => mem_pstr i (s_sel x)) blacklist)\n"
-    "       (s_nosec x) fname None (s_mod x).\n"
+    "       (s_nosec x) fname (s_lines x) (s_mod x).\n"
 )
 
 
@@ -76,10 +76,20 @@ def run_cases(progs, R=None, label="scan", plugins=("Plugins.All", "all_plugins"
         except Exception as e:     # the harness cannot render it: skip, but count
             cases.append(None)
             continue
-        cases.append("(SCase %s %s %s %s, %s)" % (
+        lines_coq = "None"
+        if "B613" in o["filter"]:
+            try:
+                import tokenize as _tk
+                with open(o["path"], "rb") as _f:
+                    _enc, _ = _tk.detect_encoding(_f.readline)
+                with open(o["path"], encoding=_enc) as _f:
+                    lines_coq = "(Some %s)" % L.lst([L.pstr(x) for x in _f.readlines()], "pstr")
+            except Exception:
+                lines_coq = "None"
+        cases.append("(SCase %s %s %s %s %s, %s)" % (
             term, impl.nosec_map_coq(o["nosec_lines"]), L.lst([L.pstr(x) for x in o["filter"]], "pstr"),
             L.lst([L.pair(L.pstr(k), jv(v)) for k, v in (p.get("config") or {}).items()], "pstr * jv"),
-            impl.scan_out_coq(o)))
+            lines_coq, impl.scan_out_coq(o)))
     idx = [i for i, c in enumerate(cases) if c is not None]
     files = []
     hdr = HDR % (plugins[0], L.pstr("t.py"), plugins[1])
